@@ -90,6 +90,8 @@ def run(ck):
                         "label numbers of everything behind it")
     from .c17 import frame_integrity as _fi04
     _fi04(ck, "C04.20")
+    if ck.wants("C04.22"):
+        segments_carry_their_own_peak(ck, "C04.22")
     ck.clause("C04.21", "a second-pass record is scored and reported in one frame: the fragments reach the aligner as they were cut (as "
                         "C02.4) - a fragment re-based on its way reports label numbers and offsets of the fragment while Confidence was "
                         "computed for them: recomputed against the whole molecule the pairs lie far off the seed diagonal")
@@ -577,6 +579,48 @@ def confidence(ck):
                              required=T.show(want[0])[:200])
             else:
                 raise AnalysisError(f"{where(fn, pa.node)}: confidence computation not recognised: {T.show(conf)[:160]}")
+
+
+def segments_carry_their_own_peak(ck, rule):
+    """A segment is built from the positions that were paired and scored along ONE seed diagonal and remembers that seed (its
+    `peak`): Confidence is recomputed from the maps with segment.peak.position, and the conflict resolver compares peak positions.
+    Positions computed for one peak handed to the factory together with another peak (two lists paired by position after one of
+    them was re-ordered) give records whose Confidence belongs to other pairs than the diagonal it names."""
+    p = ck.ctx.p
+    ck.clause(rule, "Aligner.align hands the segments factory the scored positions of a peak together with THAT peak: the positions "
+                    "argument is computed from the peak argument (never two separately ordered lists paired by position)")
+    fn = p.find_method("Aligner", "align")
+    same = lambda f: f.cls is fn.cls
+    n = 0
+    for pa in explore(ck, fn, inline=2, inline_ok=same, unroll=(0, 1)):
+        if pa.outcome != "return":
+            continue
+        for x in T.subterms(pa.value):
+            if not (x[0] == "app" and x[1].endswith("AlignmentSegmentsFactory.getSegments")):
+                continue
+            a = dict(x[3])
+            pos, peak = a.get("positions"), a.get("peak")
+            if pos is None or peak is None:
+                raise AnalysisError(f"{where(fn, pa.node)}: arguments of the segments factory not bound")
+            n += 1
+            w = where(fn, pa.node)
+            if T.contains(pos, peak):
+                ck.ok(rule, short(fn) + ":own-peak", w, "the positions are computed from the peak they are handed over with", T.show(pos)[:120])
+                continue
+            # two components of one zipped element: the lists must be ordered alike
+            zips = [y for y in T.subterms(pa.value) if y[0] == "call" and y[1] == "zip" and len(y[2]) == 2]
+            if pos[0] == "idx" and peak[0] == "idx" and pos[1] == peak[1] and zips:
+                z = zips[0]
+                sorted_side = [s0 for s0 in z[2] if any(y[0] == "call" and y[1] in ("sorted", "reversed") for y in T.subterms(s0))]
+                if len(sorted_side) == 1:
+                    ck.violation(rule, short(fn) + ":own-peak", w,
+                                 "positions and peak are the two components of a zipped pair, and only one of the two lists was re-ordered: "
+                                 "from the first peak that is out of order on, the positions paired along one diagonal are stored with "
+                                 "another peak (more than ten refined peaks arrive in argpartition order)",
+                                 found=T.show(z)[:200], required="getSegments(<positions of p>, p) for each p of one list")
+                    continue
+            raise AnalysisError(f"{w}: how positions and peak of a segment belong together is not recognised: {T.show(pos)[:100]}")
+    ck.floor(rule + " segment constructions in Aligner.align", n, 1)
 
 
 # ------------------------------------------------------------------------------------------------------------ C04.4
